@@ -35,10 +35,13 @@ LEVEL_TEXT = ('Theorems over the Gallina model Expiry.v for every cache state, c
 LEVEL_NOTE = ('Trusted: Coq kernel, the hand-written model Expiry.v, the correspondence harness (clock replacement, re-stamping '
               'of tile files written during a request with the simulated instant, decoding of tile colours).  Time is exact in '
               'quarter seconds; float rounding of time.time() and DST handling of mktime are not modelled (TZ=UTC).  Requests '
-              'with duplicate or None coordinates, minimize_meta_requests, bulk_meta_tiles, rescale_tiles, the mbtiles ttl option, '
+              'with duplicate or None coordinates, minimize_meta_requests, rescale_tiles, the mbtiles ttl option, '
               'link_single_color_images: hardlink (shared inode mtime; oracle-only scenario, known finding) and concurrent '
               'writers are outside the model.  Histories run under TZ UTC, EST-5 and WST5, with and without a pre_store_filter, '
-              'over plain and symlinked single colour file caches, with response bodies that break while they are read.')
+              'over plain and symlinked single colour file caches, with response bodies that break while they are read, with one or two '
+              'merged sources (the overlay answering with its uncacheable on_error placeholder), refresh_before time as string or as '
+              'datetime object, requests that wait for the tile lock while another request completes (ERace), and a separate stream '
+              'for bulk_meta_tiles managers (run_bulk; step-level theorems only, not part of the history theorems).')
 DESIGN_REF = 'DESIGN.md section 5, C13'
 RULE = ('case = one history (backend, meta mode, initial cache with timestamps, rule, clock, upstream script, 5-14 events); '
         'non-trivial = at least one request that meets a stale or missing tile and one request that meets a fresh tile, or an '
@@ -226,6 +229,7 @@ class Source(object):
     def __init__(self, world):
         self.world = world
         self.calls = []         # list of sorted covered tile lists
+        self.last_bbox = None
 
     def get_map(self, query):
         from mapproxy.image import ImageSource
@@ -247,6 +251,7 @@ class Source(object):
                 if 0 <= tx < gw and 0 <= ty < gh:
                     blocks.append((tx, ty, level))
         k = len(self.calls)
+        self.last_bbox = tuple(bbox)
         self.calls.append(sorted(blocks))
         oc = outcome_of(w.script, k)
         if oc[0] == 'broken':
@@ -256,13 +261,44 @@ class Source(object):
         if oc[0] == 'blank':
             raise BlankImage()
         img = Image.new('RGB', tuple(size), enc_colour(oc[3]))
-        src = ImageSource(img, image_opts=w.opts, cacheable=bool(oc[1]))
-        src.authorize_stale = bool(oc[2])
+        src = ImageSource(img, image_opts=w.opts, cacheable=bool(oc[1]) or w.use_overlay)
+        src.authorize_stale = bool(oc[2]) and not w.use_overlay
         return src
 
 
+class Overlay(object):
+    """second source of the cache (merged by LayerMerger on top of the main source): an overlay that is empty
+    everywhere; when the scripted answer is 'not cacheable' it is the on_error placeholder of the overlay
+    (BlankImageSource, transparent, cache: False) - the merged image must then not be stored"""
+    supports_meta_tiles = True
+    coverage = None
+    extent = None
+    res_range = None
+
+    def __init__(self, world):
+        import threading
+        self.world = world
+        self.handled = 0
+        self.mutex = threading.Lock()
+
+    def get_map(self, query):
+        from mapproxy.image import BlankImageSource
+        from mapproxy.image.opts import ImageOptions
+        main = self.world.source
+        with self.mutex:
+            n = len(main.calls)
+            if self.handled < n and main.last_bbox == tuple(query.bbox):
+                k = n - 1             # the main source has been asked for this request already
+            else:
+                k = n
+            self.handled = k + 1
+        oc = outcome_of(self.world.script, k)
+        cacheable = bool(oc[1]) if oc[0] == 'ok' else True
+        return BlankImageSource(query.size, ImageOptions(bgcolor=(255, 255, 255, 0), transparent=True), cacheable=cacheable)
+
+
 class World(object):
-    def __init__(self, base, backend, meta, script, clock, use_filter=False):
+    def __init__(self, base, backend, meta, script, clock, use_filter=False, use_overlay=False, use_bulk=False):
         from mapproxy.cache.base import TileLocker
         from mapproxy.cache.tile import TileManager
         from mapproxy.grid import TileGrid
@@ -289,9 +325,15 @@ class World(object):
             self.cache = MBTilesLevelCache(self.cache_dir)
         self.locker = TileLocker(os.path.join(base, 'locks'), 10, self.cache.lock_cache_id)
         self.source = Source(self)
-        self.tm = TileManager(self.grid, self.cache, [self.source], 'png', self.locker, image_opts=self.opts,
+        self.use_bulk = use_bulk
+        if use_bulk:
+            self.source.supports_meta_tiles = False      # a tiled source: bulk_meta_tiles downloads tile by tile
+        self.use_overlay = use_overlay
+        sources = [self.source, Overlay(self)] if use_overlay else [self.source]
+        self.tm = TileManager(self.grid, self.cache, sources, 'png', self.locker, image_opts=self.opts,
                               meta_size=list(META) if meta else None, meta_buffer=0 if meta else None,
-                              pre_store_filter=[make_filter(self.opts)] if use_filter else None)
+                              pre_store_filter=[make_filter(self.opts)] if use_filter else None,
+                              bulk_meta_tiles=bool(use_bulk))
         assert (self.tm.meta_grid is not None) == bool(meta)
         self.ref_file = os.path.join(base, 'datasource.ref')
         self.univ = universe()
@@ -476,7 +518,11 @@ class World(object):
 def rule_conf(rule, ref_file):
     """the dictionary a configuration would contain"""
     d = {}
-    if rule.get('time') is not None:
+    if rule.get('time') is not None and rule.get('time_obj'):
+        # an unquoted YAML timestamp arrives as a datetime object (the clock shim's class, as util/times.py sees it)
+        import mapproxy.util.times as mt
+        d['time'] = mt.datetime.datetime(*_time.localtime(rule['time'])[:6])
+    elif rule.get('time') is not None:
         d['time'] = local_text(rule['time'], '%Y-%m-%dT%H:%M:%S')
     if rule.get('mtime'):
         d['mtime'] = ref_file
@@ -542,7 +588,7 @@ def run_history_tz(ctx, h):
     base = ctx.tmpdir('w')
     steps = []
     with Patched(clock):
-        w = World(base, h['backend'], h['meta'], h['script'], clock, use_filter=bool(h.get('filter')))
+        w = World(base, h['backend'], h['meta'], h['script'], clock, use_filter=bool(h.get('filter')), use_overlay=bool(h.get('overlay')), use_bulk=bool(h.get('bulk')))
         for c, content, ts in h['init']:
             w.put_initial(tuple(c), content, ts)
         w.set_ref(h['ref'])
@@ -550,7 +596,9 @@ def run_history_tz(ctx, h):
         rule, expire, ref = h['rule'], h['expire'], h['ref']
         members_real = {}
         for c in w.univ:
-            if w.tm.meta_grid is not None:
+            if w.tm.meta_grid is not None and h.get('bulk'):
+                members_real[c] = [t for t in w.tm.meta_grid.meta_tile(c).tiles if t is not None]   # download order
+            elif w.tm.meta_grid is not None:
                 members_real[c] = sorted(t for t in w.tm.meta_grid.meta_tile(c).tiles if t is not None)
             else:
                 members_real[c] = [c]
@@ -740,7 +788,15 @@ def oracle(ctx, h, ob):
         for c in coords:
             if states[c] != 'fresh':
                 needed.add(tuple(my_members(meta, c)))
+        if h.get('bulk'):
+            needed_tiles = set(t for mt in needed for t in mt)
+            for cs in calls:
+                if len(cs) != 1 or tuple(cs[0]) not in needed_tiles:
+                    ctx.fail(SIG_FRESH, 'bulk download of %r although no requested tile of its meta tile is missing or stale '
+                             '(requested %r, states %r, threshold %r)' % (cs, coords, states, thr), rep)
         for j, cs in enumerate(calls):
+            if h.get('bulk'):
+                break
             if tuple(tuple(c) for c in cs) not in needed:
                 ctx.fail(SIG_FRESH, 'upstream request for %r although no requested tile of it is missing or stale '
                          '(requested %r, states %r, threshold %r)' % (cs, coords, states, thr), rep)
@@ -807,6 +863,8 @@ def oracle(ctx, h, ob):
         if thr is not None and (s['now'] // Q) * Q > thr:
             for c, ks in covered.items():
                 oc = outcome(ks[-1])
+                if h.get('bulk') and any(outcome(k)[0] in ('err', 'broken') for t in my_members(meta, c) for k in covered.get(t, [])):
+                    continue        # bulk download: one failing tile of the meta tile and nothing of it is stored
                 if oc[0] == 'ok' and oc[1] and c in after and not (oc[2] and not meta and states.get(c) == 'stale'):
                     if is_stale_ts(after[c][1], thr) and h['backend'] == 'filelink' and after[c] == before.get(c) \
                             and after[c][0] == new_content(ks[-1]):
@@ -910,6 +968,78 @@ def oracle_seed(ctx, h, s, thr, state, rep, outcome):
                          % (c, old, new), rep)
 
 
+BULK_CASE_TYPE = ('mgr * env * list outcome * list (addr * list addr) * cache * list (list addr) * '
+                  '(list result * list (option (Z * Z)) * list (list addr)) * list addr')
+BULK_CHECKER = ("fun c => let '(m, ev, sc, tbl, c0, reqs, (res_i, dump_i, log_i), univ) := c in "
+                "let '(s', res_m) := run_bulk %d m ev (script_of sc) (members_of tbl) (mkSt c0 []) reqs in "
+                "list_eqb result_eqb res_m res_i && "
+                "list_eqb (opt_eqb (pair_eqb Z.eqb Z.eqb)) (dump (s_cache s') univ) dump_i && "
+                "list_eqb (list_eqb addr_eqb) (rev (s_log s')) log_i" % Q)
+
+
+def bulk_histories(ctx):
+    """bulk_meta_tiles: a tiled source, meta tiles downloaded tile by tile (_create_bulk_meta_tile)"""
+    t0 = BASE * Q
+    a, b, c = (0, 0, 2), (1, 0, 2), (2, 2, 2)
+    out = []
+    for backend in ('file', 'sqlite'):
+        out.append({'backend': backend, 'bulk': True, 'meta': True, 'init': [(a, INIT, t0), (b, INIT + 1, t0 + 8 * Q)],
+                    'rule': {'time': BASE + 2}, 'expire': None, 'now': t0 + 10 * Q, 'ref': None,
+                    'script': [('ok', True, False, 3), ('ok', False, False, 4), ('blank',), ('ok', True, False, 6), ('err',)],
+                    'events': [('req', [b]), ('req', [a]), ('req', [a, b]), ('req', [c]), ('req', [c])]})
+    for _ in range(ctx.n(50, 400)):
+        h = gen_history(ctx.rng, ctx.quick)
+        h['bulk'], h['meta'], h['overlay'] = True, True, False
+        h['script'] = [(('err',) if oc[0] == 'broken' else oc) for oc in h['script']]
+        evs = []
+        for e in h['events']:
+            if e[0] == 'req':
+                evs.append(e)
+            elif e[0] == 'race':
+                evs.append(('req', e[1]))
+        h['events'] = evs or [('req', [h['init'][0][0]])]
+        out.append(h)
+    return out
+
+
+def reslit(res):
+    if res[0] == 'served':
+        return '(Served %s)' % llit(res[1], lambda v: olit(v))
+    return {'source': '(Raised ESource)', 'cfg': '(Raised ECfg)', 'body': '(Raised EBody)'}.get(res[1], '(Served [Some (-99)])')
+
+
+def bulk_stream(ctx):
+    terms, descr = [], []
+    for h in bulk_histories(ctx):
+        try:
+            ob = run_history(ctx, h)
+        except Exception as e:  # noqa
+            import traceback
+            ctx.problem('harness', 'bulk history could not be run on the implementation: %r' % (e,),
+                        {'history': jsonable(h), 'trace': traceback.format_exc()[-1500:]})
+            continue
+        ctx.case(('bulk', repr(sorted(jsonable(h).items()))), bool(ob['log']), None)
+        ctx.count('bulk_meta_tiles')
+        oracle(ctx, h, ob)
+        floor_store = h['backend'] in ('mbtiles', 'sqlite')
+        m = '(mkMgr %s %s true %s %s %s)' % (rlit(h['rule']), olit(h['expire']), blit(floor_store),
+                                            zlit(FILTER if h.get('filter') else 0), blit(h['backend'] == 'filelink'))
+        ev = '(mkEnv %s %s)' % (zlit(h['now']), olit(h['ref']))
+        tbl = llit(sorted(ob['members'].items()), lambda kv: '(%s, %s)' % (alit(kv[0]), llit(kv[1], alit)))
+        c0 = llit(h['init'], lambda t: '(%s, mkEntry %s %s)' % (alit(t[0]), zlit(t[1]), zlit(t[2])))
+        univ = ob['univ']
+        dump = llit(univ, lambda c: 'None' if c not in ob['final'] else '(Some (%s, %s))' % (zlit(ob['final'][c][0]), zlit(ob['final'][c][1])))
+        log = llit(ob['log'], lambda cs: llit([tuple(c) for c in cs], alit))
+        terms.append('(%s, %s, %s, %s, %s, %s, (%s, %s, %s), %s)' % (
+            m, ev, llit([outcome_of(h['script'], k) for k in range(len(h['script']))], oclit), tbl, c0,
+            llit([e[1] for e in h['events']], lambda cs: llit(cs, alit)),
+            llit([s['res'] for s in ob['steps']], reslit), dump, log, llit(univ, alit)))
+        descr.append({'history': jsonable(h), 'implementation': {
+            'results': [s['res'] for s in ob['steps']], 'upstream_log': ob['log'],
+            'final_cache': sorted([list(c), list(v)] for c, v in ob['final'].items())}})
+    ctx.corr_check('bulk', 'Expiry', BULK_CASE_TYPE, terms, BULK_CHECKER, lambda i: descr[i], shard=60)
+
+
 def hardlink_scenario(ctx):
     """link_single_color_images: hardlink is outside the model (hard links share the inode and its mtime).  Oracle only:
     a stale single colour tile that is refreshed with an image of the same colour must become fresh."""
@@ -949,7 +1079,7 @@ def gen_rule(rng, target, now_holder):
     if kind == 'expire':
         return None, target, None
     if kind == 'time':
-        return {'time': target // Q}, None, None
+        return {'time': target // Q, 'time_obj': rng.random() < 0.4}, None, None
     if kind == 'mtime':
         return {'mtime': True}, None, target
     if kind == 'mix':
@@ -968,6 +1098,7 @@ def gen_history(rng, quick):
     backend = rng.choice(['file', 'file', 'filelink', 'mbtiles', 'sqlite'])
     tz = rng.choice(ZONES)
     use_filter = rng.random() < 0.3
+    use_overlay = rng.random() < 0.2
     meta = rng.random() < 0.5
     level = rng.choice([1, 2, 2, 2])
     gw, gh = grid_size(level)
@@ -1008,6 +1139,10 @@ def gen_history(rng, quick):
                 script.append(('ok', rng.random() < 0.5, True))
             else:
                 script.append(('blank',) if rng.random() < 0.5 else ('broken',))
+    if use_overlay:
+        # two sources merged by LayerMerger: the merged image has no authorize_stale, and a blank main layer would leave
+        # the overlay alone
+        script = [(oc[0], oc[1], False) if oc[0] == 'ok' else (('err',) if oc[0] == 'blank' else oc) for oc in script]
     # explicit contents: normally the number of the answer, sometimes the colour an existing tile already has
     for k, oc in enumerate(script):
         if oc[0] == 'ok':
@@ -1053,7 +1188,7 @@ def gen_history(rng, quick):
             events.append(('rule', r2, e2))
         else:
             events.append(('ref', rng.choice([None, target, cur_now, cur_now - Q, t0 + rng.randrange(-2 * Q, 3 * Q)])))
-    return {'backend': backend, 'tz': tz, 'filter': use_filter, 'meta': meta, 'init': init, 'rule': rule, 'expire': expire, 'now': now, 'ref': ref,
+    return {'backend': backend, 'tz': tz, 'filter': use_filter, 'overlay': use_overlay, 'meta': meta, 'init': init, 'rule': rule, 'expire': expire, 'now': now, 'ref': ref,
             'script': script, 'events': events}
 
 
@@ -1113,6 +1248,14 @@ def fixed_histories():
                             'script': [('ok', True, False, 5)],
                             'events': [('probe', a), ('probe', b), ('req', [a, b]), ('rule', {'time': BASE + 4}, None),
                                        ('probe', b), ('seed', t0 + 3600 * Q + 2 * Q, False, 2)]})
+    # two sources (merged): the overlay answers with its on_error placeholder (cache: False) while a stale tile exists;
+    # refresh_before time given as a datetime object (unquoted YAML timestamp)
+    for backend in ('file', 'sqlite'):
+        for meta in (False, True):
+            out.append({'backend': backend, 'overlay': True, 'meta': meta, 'init': [(a, INIT, t0), (b, INIT + 1, t0 + 8 * Q)],
+                        'rule': {'time': BASE + 2, 'time_obj': True}, 'expire': None, 'now': t0 + 10 * Q, 'ref': None,
+                        'script': [('ok', False, False, 3), ('err',), ('ok', True, False, 5), ('broken',)],
+                        'events': [('req', [a]), ('probe', a), ('req', [a, b]), ('req', [a]), ('probe', a), ('req', [c])]})
     # two requests for the same stale tile: the second decides before the first has stored and re-checks under the lock
     for backend in ('file', 'filelink', 'mbtiles', 'sqlite'):
         for meta in (False, True):
@@ -1276,6 +1419,7 @@ def run(ctx):
         ctx.count('backend=' + h['backend'])
         ctx.count('tz=' + h.get('tz', 'UTC'))
         ctx.count('pre_store_filter=%s' % bool(h.get('filter')))
+        ctx.count('sources=%d' % (2 if h.get('overlay') else 1))
         ctx.count('meta=%s' % h['meta'])
         ctx.count('upstream_calls=%d' % min(len(ob['log']), 6))
         kind = 'none'
@@ -1294,4 +1438,5 @@ def run(ctx):
             'steps': [{k: v for k, v in s.items() if k not in ('before', 'after', 'mid', 'rule', 'expire', 'ref')} for s in ob['steps']],
             'final_cache': sorted([list(c), list(v)] for c, v in ob['final'].items()), 'upstream_log': ob['log']}})
     hardlink_scenario(ctx)
+    bulk_stream(ctx)
     ctx.corr_check('history', 'Expiry', CASE_TYPE, terms, CHECKER, lambda i: descr[i], shard=60)
